@@ -3,12 +3,32 @@ C16 — Meet, join, sufficient statistics and common informations are correct.
 """
 import itertools
 import math
+import signal
 from fractions import Fraction
 
 import core
 import gen
 from driver import q
 from env import import_dit
+
+
+def _alarm(signum, frame):
+    raise core.CaseTimeout()
+
+
+class _Untimed(object):
+    """The driver with the case's timer paused during a call (a timeout inside the line protocol would desynchronise it)."""
+
+    def __init__(self, drv):
+        self.drv = drv
+
+    def call(self, *a, **k):
+        left = signal.setitimer(signal.ITIMER_REAL, 0)[0]
+        try:
+            return self.drv.call(*a, **k)
+        finally:
+            if left > 0:
+                signal.setitimer(signal.ITIMER_REAL, left)
 
 
 class C16(object):
@@ -18,7 +38,15 @@ class C16(object):
             "sample spaces, str or tuple outcomes, named or not; all pairs / families of variable groups, insertion "
             "positions idx in {0..n, -1}; insert_join / insert_meet / insert_mss partitions vs the model's, conditional "
             "entropies in the returned distribution, preservation of the old variables' joint, K / F / M values vs "
-            "references and the chain K <= J <= B <= F <= M <= H. Non-trivial = at least 4 outcomes and 2 classes")
+            "references and the chain K <= J <= B <= F <= M <= H. Non-trivial = at least 4 outcomes and 2 classes. Two added "
+            "streams: (a) variable lists in arbitrary order - the group X of insert_mss / mss / mss_sigalg and the variables "
+            "it is about as any disjoint subsets in any order (about=None = all others), groups and the variables inside them "
+            "shuffled; the cells are compared with the classes of equal P(Y|x) computed from the definition with exact "
+            "rationals; (b) sequences of evaluations in one process - one or two calls of join / meet / insert_join / "
+            "insert_meet / gk_common_information / mss / insert_mss on the default (Cartesian), dense or pruned presentation "
+            "of the same joint distribution precede the case's evaluation (calls limited to 9 atoms per sigma-algebra), each "
+            "judged by the clauses that do not depend on the sample space. A case has 20 s (common informations 120 s), "
+            "otherwise it is dropped and counted as case-timeout")
     tolerances = {'entropies': 'atol 1e-9', 'chain': 'slack 1e-8', 'mss rows': 'generated conditional rows are equal or differ by >= 1e-3 (dit compares with is_approx_equal)'}
     exhaustive = {}
 
@@ -50,81 +78,326 @@ class C16(object):
             yield c
         n_cases = 110 if tier == 'quick' else 2000
         for _ in range(n_cases):
-            n = rng.choice([2, 3, 3])
-            style = rng.choice(['block', 'function', 'full', 'sparse', 'giant'])
-            a = rng.choice([2, 3])
-            full = [list(o) for o in itertools.product(range(a), repeat=n)]
-            if style == 'block':
-                # two blocks of symbols that never mix
-                lo = [o for o in itertools.product(range(2), repeat=n)]
-                hi = [tuple(x + 2 for x in o) for o in itertools.product(range(2), repeat=n)]
-                pool = [list(o) for o in lo + hi]
-                outs = rng.sample(pool, rng.randint(3, min(8, len(pool))))
-            elif style == 'function':
-                outs = []
-                f = {x: rng.randrange(a) for x in range(a)}
-                for o in full:
-                    if o[-1] == f[o[0]]:
-                        outs.append(o)
-                outs = outs[:8]
-            elif style == 'giant':
-                outs = [[x] * n for x in range(a)]
-            elif style == 'full':
-                outs = full[:8]
+            yield self.dist_case(rng)
+        # ---- variable lists in arbitrary (not index) order, `about` left out, every mss entry point
+        for _ in range(48 if tier == 'quick' else 700):
+            c = self.order_case(rng, self.dist_case(rng))
+            yield self.bound_cost(c)
+        # ---- sequences of evaluations in one process: the case's evaluation is preceded by calls of the property's
+        # entry points on other presentations (default Cartesian sample space / dense / pruned) of the same distribution
+        for _ in range(44 if tier == 'quick' else 800):
+            c = self.dist_case(rng)
+            if rng.random() < 0.6:
+                c['kind'] = rng.choice(['meet', 'common', 'latsig'])
+                if c['kind'] != 'latsig':
+                    c['extra'] = []
+            if rng.random() < 0.25:
+                c = self.order_case(rng, c, keep_kind=True)
+            c['prelude'] = self.gen_prelude(rng, c)
+            yield self.bound_cost(c)
+
+    @staticmethod
+    def bound_cost(c):
+        # functional_common_information enumerates the partitions of the outcomes (20 s for 8 of them): in the added
+        # streams the common informations run on at most 6 outcomes, larger supports get the meet (which includes K)
+        if c['kind'] == 'common' and len(c['outs']) > 6:
+            c['kind'] = 'meet'
+        return c
+
+    def dist_case(self, rng):
+        n = rng.choice([2, 3, 3])
+        style = rng.choice(['block', 'function', 'full', 'sparse', 'giant'])
+        a = rng.choice([2, 3])
+        full = [list(o) for o in itertools.product(range(a), repeat=n)]
+        if style == 'block':
+            # two blocks of symbols that never mix
+            lo = [o for o in itertools.product(range(2), repeat=n)]
+            hi = [tuple(x + 2 for x in o) for o in itertools.product(range(2), repeat=n)]
+            pool = [list(o) for o in lo + hi]
+            outs = rng.sample(pool, rng.randint(3, min(8, len(pool))))
+        elif style == 'function':
+            outs = []
+            f = {x: rng.randrange(a) for x in range(a)}
+            for o in full:
+                if o[-1] == f[o[0]]:
+                    outs.append(o)
+            outs = outs[:8]
+        elif style == 'giant':
+            outs = [[x] * n for x in range(a)]
+        elif style == 'full':
+            outs = full[:8]
+        else:
+            outs = rng.sample(full, rng.randint(2, min(8, len(full))))
+        pv, _ = gen.rand_prob_vector(rng, len(outs), rng.choice(['small', 'uneven', 'dyadic']))
+        keep = [(o, p) for o, p in zip(outs, pv) if p > 0]
+        if len(keep) < 2:
+            keep = [(o, Fraction(1, len(outs))) for o in outs]
+        tot = sum(p for _, p in keep)
+        outs = [o for o, _ in keep]
+        pmf = [p / tot for _, p in keep]
+        kind = rng.choice(['join', 'meet', 'meet', 'mss', 'common', 'latsig', 'latsig', 'trim'])
+        vars_ = list(range(n))
+        if n == 2:
+            groups = rng.choice([[[0], [1]], [[0], [1]], [[1], [0]]])
+        else:
+            groups = rng.choice([[[0], [1]], [[0], [1], [2]], [[0, 1], [2]], [[0], [1, 2]], [[0, 1], [1, 2]],
+                                 [[1], [0]], [[2], [0]], [[2], [0, 1]], [[1, 2], [0]], [[2], [1], [0]], [[1, 0], [2]]])
+        cgroups = rng.choice(['singletons', 'given'])
+        if kind == 'common' and n == 3 and rng.random() < 0.6:
+            # two of the three variables: the left-out one must not influence K, F, M
+            groups, cgroups = rng.choice([[[0], [1]], [[0], [2]], [[1], [2]]]), 'given'
+        return {'klass': rng.choice(['str', 'tuple']), 'n': n, 'outs': outs, 'pmf': [str(p) for p in pmf],
+               'style': style, 'kind': kind, 'groups': groups, 'idx': rng.choice([-1] + list(range(n + 1))),
+               'names': rng.random() < 0.3, 'rvs': [0] if n == 2 else rng.choice([[0], [0, 1]]),
+               'about': [n - 1], 'cgroups': cgroups,
+               # latsig: the sample space may hold outcomes outside the support (the sigma-algebras partition the whole space)
+               'extra': ([o for o in rng.sample(full, min(len(full), 3)) if o not in outs][:rng.randint(0, 2)]
+                         if kind == 'latsig' and len(outs) <= 6 else [])}
+
+    ALL_GROUPS = {2: [[[0], [1]], [[1], [0]]],
+                  3: [[[0], [1]], [[0], [1], [2]], [[0, 1], [2]], [[0], [1, 2]], [[0, 1], [1, 2]], [[1], [0]], [[2], [0]],
+                      [[2], [0, 1]], [[1, 2], [0]], [[2], [1], [0]], [[1, 0], [2]], [[0, 2], [1]], [[2, 1], [0]]]}
+
+    def order_case(self, rng, c, keep_kind=False):
+        """The variable lists of the case in arbitrary order: a group of variables and the variables it is a statistic
+        about (any disjoint non-empty subsets, or `about` left out = all the other variables), the variables inside
+        every group and the groups themselves shuffled."""
+        n = c['n']
+        if not keep_kind:
+            c['kind'] = rng.choice(['mss', 'mss', 'mss', 'mss', 'join', 'meet', 'common'])
+            c['extra'] = []
+        vs = list(range(n))
+        rng.shuffle(vs)
+        k = n - 1 if rng.random() < 0.6 else rng.randint(1, n - 1)
+        rvs, rest = vs[:k], vs[k:]
+        if k > 1 and rvs == sorted(rvs) and rng.random() < 0.5:
+            rvs = rvs[::-1]
+        c['rvs'] = rvs
+        c['about'] = None if rng.random() < 0.25 else rest[:rng.randint(1, len(rest))]
+        groups = [list(g) for g in c['groups']]
+        for g in groups:
+            rng.shuffle(g)
+        rng.shuffle(groups)
+        c['groups'] = groups
+        c['order'] = True
+        return c
+
+    def gen_prelude(self, rng, c):
+        """One or two calls of the property's entry points made before the case's own evaluation, on some presentation of
+        the same joint distribution. dit's sigma-algebra code is exponential in the number of atoms of the sample space,
+        so on the Cartesian presentations only calls with at most 9 atoms per generated sigma-algebra are chosen."""
+        n, outs = c['n'], c['outs']
+        sizes = [len(set(o[i] for o in outs)) for i in range(n)]
+
+        def atoms(g):
+            k = 1
+            for i in set(g):
+                k *= sizes[i]
+            return k
+        steps = []
+        for _ in range(rng.choice([1, 1, 2])):
+            pres = rng.choice(['default', 'default', 'default', 'dense', 'pruned'])
+            groups = c['groups'] if rng.random() < 0.7 else rng.choice(self.ALL_GROUPS[n])
+            small = pres == 'pruned'
+            ops = ['gk', 'insert_mss', 'mss']
+            # (a dense distribution stores outcomes whose x has probability zero; insert_mss / info_trim used to raise
+            # KeyError on them - '000','333','232' made dense, X = [0, 1], Y = [2] - repaired, see KNOWN_FINDINGS.txt)
+            if small or max(atoms(g) for g in groups) <= 9:
+                ops += ['insert_meet', 'insert_meet', 'insert_meet', 'meet', 'meet']
+            if small or atoms(sum(groups, [])) <= 9:
+                ops += ['insert_join', 'insert_join', 'join']
+            op = rng.choice(ops)
+            step = {'op': op, 'pres': pres, 'idx': rng.choice([-1] + list(range(n + 1)))}
+            if op in ('insert_mss', 'mss'):
+                about = c['about'] if c['about'] is None or not set(c['about']) & set(c['rvs']) else None
+                step['rvs'], step['about'] = c['rvs'], about
             else:
-                outs = rng.sample(full, rng.randint(2, min(8, len(full))))
-            pv, _ = gen.rand_prob_vector(rng, len(outs), rng.choice(['small', 'uneven', 'dyadic']))
-            keep = [(o, p) for o, p in zip(outs, pv) if p > 0]
-            if len(keep) < 2:
-                keep = [(o, Fraction(1, len(outs))) for o in outs]
-            tot = sum(p for _, p in keep)
-            outs = [o for o, _ in keep]
-            pmf = [p / tot for _, p in keep]
-            kind = rng.choice(['join', 'meet', 'meet', 'mss', 'common', 'latsig', 'latsig', 'trim'])
-            vars_ = list(range(n))
-            if n == 2:
-                groups = rng.choice([[[0], [1]], [[0], [1]], [[1], [0]]])
-            else:
-                groups = rng.choice([[[0], [1]], [[0], [1], [2]], [[0, 1], [2]], [[0], [1, 2]], [[0, 1], [1, 2]],
-                                     [[1], [0]], [[2], [0]], [[2], [0, 1]], [[1, 2], [0]], [[2], [1], [0]], [[1, 0], [2]]])
-            cgroups = rng.choice(['singletons', 'given'])
-            if kind == 'common' and n == 3 and rng.random() < 0.6:
-                # two of the three variables: the left-out one must not influence K, F, M
-                groups, cgroups = rng.choice([[[0], [1]], [[0], [2]], [[1], [2]]]), 'given'
-            yield {'klass': rng.choice(['str', 'tuple']), 'n': n, 'outs': outs, 'pmf': [str(p) for p in pmf],
-                   'style': style, 'kind': kind, 'groups': groups, 'idx': rng.choice([-1] + list(range(n + 1))),
-                   'names': rng.random() < 0.3, 'rvs': [0] if n == 2 else rng.choice([[0], [0, 1]]),
-                   'about': [n - 1], 'cgroups': cgroups,
-                   # latsig: the sample space may hold outcomes outside the support (the sigma-algebras partition the whole space)
-                   'extra': ([o for o in rng.sample(full, min(len(full), 3)) if o not in outs][:rng.randint(0, 2)]
-                             if kind == 'latsig' and len(outs) <= 6 else [])}
+                step['groups'] = groups
+            steps.append(step)
+        return steps
 
     def shrink(self, case):
         return []
 
-    def build(self, case):
+    def present(self, case, pres):
+        """The case's joint distribution in one of dit's presentations: 'pruned' (sample space = support, what every
+        main evaluation uses), 'default' (as constructed: Cartesian product of the alphabets) or 'dense' (the Cartesian
+        one with the zero-probability outcomes stored)."""
         dit = import_dit()
         klass = case['klass']
         outs = [gen.to_py(o, klass) for o in case['outs']]
-        d = dit.Distribution(outs, [float(Fraction(p)) for p in case['pmf']], sample_space=outs)
+        pm = [float(Fraction(p)) for p in case['pmf']]
+        if pres == 'pruned':
+            d = dit.Distribution(outs, pm, sample_space=outs)
+        else:
+            d = dit.Distribution(outs, pm)
+            if pres == 'dense':
+                d.make_dense()
         if case['names']:
             d.set_rv_names('XYZ'[:case['n']])
         return d
+
+    def build(self, case):
+        return self.present(case, 'pruned')
 
     def run(self, case, drv):
         r = core.Result()
         r.site = 'C16.' + case['kind']
         r.features = ['kind=%s' % case['kind'], 'style=%s' % case['style'], 'n=%d' % case['n'], 'names=%s' % case['names'],
                       'idx=%s' % case['idx']]
+        prelude = case.get('prelude') or []
+        told = ''
+        if prelude:
+            told = ' [after ' + '; '.join(self.step_name(s) for s in prelude) + ' in the same process]'
+            r.features.append('prelude=%d' % len(prelude))
+            r.features += ['prelude:%s@%s' % (s['op'], s['pres']) for s in prelude]
+        if case.get('order'):
+            r.features.append('order=shuffled')
+        stage = 'prelude'
+        # dit's sigma-algebra code is exponential in the number of atoms it is handed; a case that does not finish within
+        # its budget (normal: well under 2 s, the common informations up to 25 s) is dropped and counted, never reported
+        budget = 120 if case['kind'] == 'common' else 20
+        drv = _Untimed(drv)
+        old_handler = signal.signal(signal.SIGALRM, _alarm)
+        signal.setitimer(signal.ITIMER_REAL, budget)
         try:
-            getattr(self, 'run_' + case['kind'])(case, drv, r)
+            for s in prelude:
+                stage = self.step_name(s)
+                self.run_prelude(case, s, r)
+                if r.oracle_fail:
+                    r.site = 'C16.prelude.' + s['op']
+                    break
+            else:
+                stage = case['kind']
+                getattr(self, 'run_' + case['kind'])(case, drv, r)
+        except core.CaseTimeout:
+            r = core.Result()
+            r.site = 'C16.' + case['kind']
+            r.features = ['case-timeout']
+            return r
         except core.DriverError:
             raise
         except Exception as e:  # noqa
             import traceback
-            r.oracle_fail = '%s raised %s: %s' % (case['kind'], type(e).__name__, str(e)[:160])
+            r.oracle_fail = '%s raised %s: %s' % (stage, type(e).__name__, str(e)[:160])
             r.detail = {'traceback': traceback.format_exc()[-700:]}
+            if stage != case['kind']:
+                r.site = 'C16.prelude.' + stage.split('(')[0]
+        finally:
+            signal.setitimer(signal.ITIMER_REAL, 0)
+            signal.signal(signal.SIGALRM, old_handler)
+        if r.oracle_fail and told:
+            r.oracle_fail += told
+        if r.mismatch and told:
+            r.mismatch += told
         return r
+
+    @staticmethod
+    def step_name(s):
+        return '%s(%s) on the %s presentation' % (s['op'], s['groups'] if 'groups' in s else '%s about %s' % (s['rvs'], s['about']),
+                                                  s['pres'])
+
+    def run_prelude(self, case, s, r):
+        """A call that precedes the case's evaluation. Its own result is judged by the clauses of the statement that do
+        not depend on the sample space: the join and the sufficient statistic live on the support, gk_common_information
+        prunes by itself, every insertion preserves the old variables, the meet is a function of every group."""
+        import_dit()
+        from dit.algorithms import lattice as L
+        from dit.algorithms.minimal_sufficient_statistic import insert_mss, mss
+        from dit.multivariate import gk_common_information
+        d = self.present(case, s['pres'])
+        op, n, klass = s['op'], case['n'], case['klass']
+        name = self.step_name(s)
+        src = {tuple(o): Fraction(p) for o, p in zip(case['outs'], case['pmf'])}
+        close = lambda got, want: len(got) == len(want) and all(abs(a - b) <= 1e-9 for a, b in zip(sorted(got), sorted(want)))
+        pos = lambda sd: [float(p) for p in sd.pmf if float(p) > 1e-12]
+        if op in ('gk', 'join', 'meet', 'insert_join', 'insert_meet'):
+            groups = s['groups']
+            g = [self.nm(case, x) for x in groups]
+            U = sorted(set(sum(groups, [])))
+        else:
+            X = sorted(s['rvs'])
+            Y = sorted(s['about']) if s['about'] is not None else sorted(set(range(n)) - set(X))
+            xa = (self.nm(case, s['rvs']), None if s['about'] is None else self.nm(case, s['about']))
+        if op == 'gk':
+            K = float(gk_common_information(d, g))
+            comp = self.components([list(o) for o in case['outs']], groups)
+            ref = -sum(m * math.log2(m) for m in [float(sum(src[tuple(o)] for o in c)) for c in comp] if m > 0)
+            if abs(K - ref) > 1e-9:
+                r.oracle_fail = '%s: gk_common_information %r, entropy of the connected components of the support %r' % (name, K, ref)
+            return
+        if op in ('join', 'meet'):
+            sd = getattr(L, op)(d, g)
+            got = pos(sd)
+            if abs(sum(got) - 1) > 1e-9:
+                r.oracle_fail = '%s: the probabilities %s do not sum to one' % (name, got)
+            if op == 'join':
+                m = {}
+                for o, p in src.items():
+                    k = tuple(o[i] for i in U)
+                    m[k] = m.get(k, 0) + p
+                if not close(got, [float(v) for v in m.values()]):
+                    r.oracle_fail = '%s: probabilities %s, the classes of agreement on every group have %s' % (
+                        name, sorted(got), sorted(float(v) for v in m.values()))
+            return
+        if op == 'mss':
+            sd = mss(d, xa[0], xa[1])
+            ref = self.mss_ref(case, X, Y)
+            if ref is not None:
+                want = [float(sum(src[o] for o in c)) for c in ref]
+                if not close(pos(sd), want):
+                    r.oracle_fail = '%s: probabilities %s, the classes of equal P(Y|x) have %s' % (name, sorted(pos(sd)), sorted(want))
+            return
+        if op == 'insert_mss':
+            d2 = insert_mss(d, s['idx'], xa[0], xa[1])
+        else:
+            d2 = getattr(L, op)(d, s['idx'], g)
+        idx = n if s['idx'] == -1 else s['idx']
+        rows = [(list(o), float(p)) for o, p in zip(d2.outcomes, d2.pmf) if float(p) > 1e-12]
+        old = {}
+        for o, p in rows:
+            rest = o[:idx] + o[idx + 1:]
+            ro = tuple(gen.from_py(rest if klass != 'str' else ''.join(rest), klass))
+            old[ro] = old.get(ro, 0.0) + p
+        if set(old) != set(src) or any(abs(old[k] - float(src[k])) > 1e-12 for k in src):
+            r.oracle_fail = '%s: the joint distribution of the original variables changed' % name
+            return
+        sh = lambda G: sorted(set(i if i < idx else i + 1 for i in G))
+        if op == 'insert_join':
+            hn, hu, hb = self.H(rows, [idx]), self.H(rows, sh(U)), self.H(rows, sh(U) + [idx])
+            if abs(hb - hu) > 1e-9 or abs(hb - hn) > 1e-9:
+                r.oracle_fail = '%s: H(new|groups) = %r, H(groups|new) = %r (both must vanish)' % (name, hb - hu, hb - hn)
+        elif op == 'insert_meet':
+            for x in groups:
+                if abs(self.H(rows, sh(x) + [idx]) - self.H(rows, sh(x))) > 1e-9:
+                    r.oracle_fail = '%s: the meet is not a function of the group %s' % (name, x)
+                    return
+        else:
+            if abs(self.H(rows, sh(X) + [idx]) - self.H(rows, sh(X))) > 1e-9:
+                r.oracle_fail = '%s: the sufficient statistic is not a function of X' % name
+                return
+            mi = lambda A, B: self.H(rows, A) + self.H(rows, B) - self.H(rows, sorted(set(A + B)))
+            if abs(mi([idx], sh(Y)) - mi(sh(X), sh(Y))) > 1e-9:
+                r.oracle_fail = '%s: I(mss:Y) = %r but I(X:Y) = %r' % (name, mi([idx], sh(Y)), mi(sh(X), sh(Y)))
+
+    def mss_ref(self, case, X, Y):
+        """The classes of x with equal P(Y|x), from the definition with exact rationals, as lists of outcomes of the
+        support. None when two unequal conditional rows are closer than 1e-6 (dit compares rows approximately)."""
+        px, pxy = {}, {}
+        for o, p in zip(case['outs'], case['pmf']):
+            x, y = tuple(o[i] for i in X), tuple(o[i] for i in Y)
+            px[x] = px.get(x, 0) + Fraction(p)
+            pxy[x, y] = pxy.get((x, y), 0) + Fraction(p)
+        ys = sorted(set(y for _, y in pxy))
+        row = {x: tuple(pxy.get((x, y), Fraction(0)) / px[x] for y in ys) for x in px}
+        rows = sorted(set(row.values()))
+        for a, b in itertools.combinations(rows, 2):
+            if max(abs(u - v) for u, v in zip(a, b)) < Fraction(1, 10 ** 6):
+                return None
+        cl = {}
+        for o in case['outs']:
+            cl.setdefault(row[tuple(o[i] for i in X)], []).append(tuple(o))
+        return [sorted(c) for c in cl.values()]
 
     # helpers ----------------------------------------------------------------
     def H(self, rows, idx):
@@ -253,6 +526,24 @@ class C16(object):
                 gm = groups
             got = back(F)
             want = sorted(sorted(A) for A in drv.call('latsig', [kind, space, gm]))
+            if kind in ('join', 'meet'):
+                # the statement on the real object, reference computed here from the definition: the atoms are the classes
+                # of agreement on every group (join) / the connected components of "agree on some group" (meet) of the space
+                if kind == 'join':
+                    U = sorted(set(sum(gm, [])))
+                    ref = {}
+                    for o in space:
+                        ref.setdefault(tuple(o[i] for i in U), []).append(list(o))
+                    ref = sorted(sorted(c) for c in ref.values())
+                else:
+                    ref = sorted(sorted(c) for c in self.components(space, gm))
+                at0 = back(atom_set(F))
+                if at0 != ref:
+                    r.oracle_fail = 'atoms of %s_sigalg%s %s are not the %s of the sample space %s' % (
+                        kind, gm, at0, 'classes of agreement on every group' if kind == 'join' else 'connected components', ref)
+                    if got != want:
+                        r.mismatch = '%s_sigalg%s over the space %s: impl %d members, model %d members' % (kind, gm, space, len(got), len(want))
+                    return
             if got != want:
                 r.mismatch = '%s_sigalg%s over the space %s: impl %d members, model %d members; impl-only %s model-only %s' % (
                     kind, gm, space, len(got), len(want), [x for x in got if x not in want][:3], [x for x in want if x not in got][:3])
@@ -390,26 +681,56 @@ class C16(object):
 
     def run_mss(self, case, drv, r):
         dit = import_dit()
-        from dit.algorithms.minimal_sufficient_statistic import insert_mss
+        from dit.algorithms.minimal_sufficient_statistic import insert_mss, mss, mss_sigalg
+        from dit.math.sigmaalgebra import atom_set
         d = self.build(case)
         rvs, about = case['rvs'], case['about']
-        if set(rvs) & set(about):
+        if about is not None and set(rvs) & set(about):
             return
-        d2 = insert_mss(d, case['idx'], self.nm(case, rvs), self.nm(case, about))
+        # the lists are passed in the case's order; the statistic does not depend on it
+        Xs = sorted(rvs)
+        Ys = sorted(about) if about is not None else sorted(set(range(case['n'])) - set(rvs))
+        r.features.append('mss:|X|=%d,%s,about=%s' % (len(rvs), 'index-order' if rvs == Xs else 'other-order',
+                                                       'None' if about is None else len(about)))
+        ab = None if about is None else self.nm(case, about)
+        d2 = insert_mss(d, case['idx'], self.nm(case, rvs), ab)
         tab = [[o, q(Fraction(p))] for o, p in zip(case['outs'], case['pmf'])]
-        classes = drv.call('mss', [tab, rvs, about])
+        classes = drv.call('mss', [tab, Xs, Ys])
         idx, part = self.check_insertion(case, d2, classes, r, 'insert_mss')
         if r.oracle_fail:
             return
         rows = [(list(o), float(p)) for o, p in zip(d2.outcomes, d2.pmf)]
         sh = lambda g: [i if i < idx else i + 1 for i in g]
-        X, Y = sh(rvs), sh(about)
+        X, Y = sh(Xs), sh(Ys)
         if abs(self.H(rows, X + [idx]) - self.H(rows, X)) > 1e-9:
             r.oracle_fail = 'the sufficient statistic is not a function of X'
             return
         mi = lambda A, B: self.H(rows, A) + self.H(rows, B) - self.H(rows, sorted(set(A + B)))
         if abs(mi([idx], Y) - mi(X, Y)) > 1e-9:
             r.oracle_fail = 'I(mss:Y) = %r but I(X:Y) = %r' % (mi([idx], Y), mi(X, Y))
+            return
+        # the cells are exactly the classes of x with equal P(Y|x): reference from the definition, exact rationals
+        ref = self.mss_ref(case, Xs, Ys)
+        if ref is None:
+            return
+        want = set(frozenset(c) for c in ref)
+        got = set(frozenset(v) for v in part.values())
+        show = lambda F: sorted(sorted(map(list, c)) for c in F)
+        if got != want:
+            r.oracle_fail = 'insert_mss(%s about %s): cells %s are not the classes of x with equal P(Y|x) %s' % (rvs, about, show(got), show(want))
+            return
+        # the other two entry points: the scalar distribution of the statistic and its sigma-algebra
+        klass = case['klass']
+        ps = {tuple(o): float(Fraction(p)) for o, p in zip(case['outs'], case['pmf'])}
+        sd = mss(d, self.nm(case, rvs), ab)
+        gotp = sorted(float(p) for p in sd.pmf if float(p) > 1e-12)
+        wantp = sorted(sum(ps[o] for o in c) for c in ref)
+        if len(gotp) != len(wantp) or any(abs(a - b) > 1e-9 for a, b in zip(gotp, wantp)):
+            r.oracle_fail = 'mss(%s about %s) has probabilities %s, the classes of equal P(Y|x) have %s' % (rvs, about, gotp, wantp)
+            return
+        at = set(frozenset(tuple(gen.from_py(o, klass)) for o in A) for A in atom_set(mss_sigalg(d, self.nm(case, rvs), ab)))
+        if at != want:
+            r.oracle_fail = 'mss_sigalg(%s about %s): atoms %s are not the classes of x with equal P(Y|x) %s' % (rvs, about, show(at), show(want))
 
     def run_common(self, case, drv, r):
         dit = import_dit()
@@ -432,6 +753,25 @@ class C16(object):
         Hh = float(mv.entropy(d, self.nm(case, union)))
         vals = [('K', K), ('J', J), ('B', B), ('F', F), ('M', M), ('H', Hh)]
         r.detail = dict(vals)
+        if len(case['outs']) <= 7:
+            # F is the least entropy of a function of the outcomes that renders the groups conditionally independent:
+            # the model takes the minimum over ALL set partitions of the outcomes (Core/SetPart.lean; Props/C16Fci proves
+            # the enumeration complete), dit searches them by successive merges
+            from canon import bits2f
+            tabF = [[o, q(Fraction(p))] for o, p in zip(case['outs'], case['pmf']) if Fraction(p) > 0]
+            mf = drv.call('fci', [tabF, groups])
+            Fm = bits2f(mf[0])
+            r.detail['F_model'] = Fm
+            r.features.append('F-vs-exhaustive-minimum')
+            if abs(F - Fm) > 1e-9:
+                if F < Fm - 1e-9:
+                    r.oracle_fail = ('functional_common_information = %r is below the least entropy %r of any function of the '
+                                     'outcomes that renders the groups %s conditionally independent (%d of %d partitions are feasible)'
+                                     % (F, Fm, groups, mf[1], mf[2]))
+                else:
+                    r.oracle_fail = ('functional_common_information = %r, but the partition %s of the outcomes renders the groups %s '
+                                     'conditionally independent and has entropy %r' % (F, mf[3], groups, Fm))
+                return
         for (a, x), (b, y) in zip(vals, vals[1:]):
             if x > y + 1e-8:
                 r.oracle_fail = 'chain K <= J <= B <= F <= M <= H broken: %s = %r > %s = %r' % (a, x, b, y)
